@@ -203,8 +203,8 @@ func vpC16Build(rt *rapid.T, base string, echo *harn.Listener, uecho *vpUDPEcho,
 			if !w.m.waitCIDR(in, fmt.Sprintf("127.%d.0.1", i+1), x, 5*time.Second) {
 				rt.Fatalf("harness: %s has no route to %s", in, x)
 			}
-			deadline := time.Now().Add(5 * time.Second)
-			for w.m.agents[in].routeMgr.LookupForward(fmt.Sprintf("e%d", i+1)) == nil && time.Now().Before(deadline) {
+			deadline := time.Now().Add(vpPatience(5 * time.Second))
+			for (w.m.agents[in].routeMgr.LookupForward(fmt.Sprintf("e%d", i+1)) == nil || w.m.agents[in].routeMgr.LookupForward(fmt.Sprintf("c%d", i+1)) == nil) && time.Now().Before(deadline) {
 				time.Sleep(300 * time.Microsecond)
 			}
 		}
@@ -261,18 +261,38 @@ func (t *vpC16Tunnel) run(w *vpC16World, start <-chan struct{}, othersDone <-cha
 		}
 		defer cl.Close()
 		n := 3 + t.total%5
+		var sent [][]byte
 		for i := 0; i < n; i++ {
 			tag := []byte(fmt.Sprintf("tunnel-%d-seq-%d|", t.idx, i))
 			msg := append(tag, vpPattern(t.seed, i*64, 64+(t.total%900))...)
+			sent = append(sent, msg)
 			cl.send(net.IPv4(127, byte(t.exit), 0, 1), w.uecho.Port, msg)
-			rep, err := cl.recv(3 * time.Second)
-			if err != nil {
-				t.lost++
-				continue
-			}
-			if !bytes.Equal(rep, msg) {
-				t.wrongs++
-				t.err = fmt.Errorf("datagram %d came back as %q...", i, rep[:min(len(rep), 40)])
+			deadline := time.Now().Add(vpPatience(3 * time.Second))
+			for {
+				rep, err := cl.recv(time.Until(deadline))
+				if err != nil {
+					t.lost++
+					break
+				}
+				if bytes.Equal(rep, msg) {
+					break
+				}
+				// the echo of an earlier datagram of this very tunnel that was given up on
+				// (datagrams may be late): its own, just not the one waited for
+				own := false
+				for _, m := range sent[:i] {
+					if bytes.Equal(rep, m) {
+						own = true
+					}
+				}
+				if own && time.Now().Before(deadline) {
+					continue
+				}
+				if !own {
+					t.wrongs++
+					t.err = fmt.Errorf("datagram %d came back as %q...", i, rep[:min(len(rep), 40)])
+				}
+				break
 			}
 		}
 		return
